@@ -249,6 +249,7 @@ type gen struct {
 	o    *vcoq.Out
 	r    *vcoq.Rand
 	tier string
+	hard int // cases that ran into a time bound (stuck writer, channel not closed, leaked goroutine)
 }
 
 func genC10(o *vcoq.Out, r *vcoq.Rand, tier string) error {
@@ -263,17 +264,20 @@ func genC10(o *vcoq.Out, r *vcoq.Rand, tier string) error {
 		nScript, nPipe, nFree = 30000, 18000, 2000
 	}
 	defer verifhook.Set(nil)
-	for i := 0; i < nScript; i++ {
+	// every case that runs into a bound costs seconds: after a few of them the rest of the run
+	// adds nothing (the failing inputs are already recorded)
+	const maxHard = 3
+	for i := 0; i < nScript && g.hard < maxHard; i++ {
 		if err := g.busScript(i); err != nil {
 			return fmt.Errorf("bus script %d: %w", i, err)
 		}
 	}
-	for i := 0; i < nPipe; i++ {
+	for i := 0; i < nPipe && g.hard < 2*maxHard; i++ {
 		if err := g.pipeScript(i); err != nil {
 			return fmt.Errorf("pipe script %d: %w", i, err)
 		}
 	}
-	for i := 0; i < nFree; i++ {
+	for i := 0; i < nFree && g.hard < 3*maxHard; i++ {
 		if err := g.freeRun(i); err != nil {
 			return fmt.Errorf("free run %d: %w", i, err)
 		}
